@@ -181,4 +181,7 @@ def register(E):
         setup=inject_setup,
         ensures=inj_post, exc_ensures=inj_post, may_raise_any=True,
         returns=TObj(),
+        # at call sites: the function is called (any result, any exception); the keyword algebra
+        # proved above is what C01/C02 use
+        model=lambda I, ctx, f, injectables: E.unknown_outcome(ctx, 'inject', None),
         prop=['C01', 'C02']))
